@@ -13,6 +13,7 @@ import (
 	"runtime"
 	"sort"
 	"strings"
+	"sync"
 	"sync/atomic"
 	"time"
 
@@ -93,6 +94,11 @@ type Case struct {
 	// what the same client did before the copy: "" nothing | inspect (get the source manifest and, for an index,
 	// each child by digest) | prior-copy (copied the image to a third repository of the source registry)
 	Warm string `json:"warm,omitempty"`
+	// Align: the model registries release requests in pairs (a request waits up to 0.5 ms for a second one to be in
+	// flight, both are then answered together), so the per-child goroutines of the copy keep reaching the shared
+	// bookkeeping at the same instant instead of drifting apart - contention on windows that are only a few
+	// instructions wide, which latency plans cannot aim at
+	Align bool `json:"align,omitempty"`
 	// the caller's context is cancelled when the k-th request of the copy (1-based) arrives; with CancelMid the
 	// body of that response stalls after its first byte and the cancellation comes while it is streaming
 	CancelAt  int  `json:"cancel_at,omitempty"`
@@ -131,6 +137,7 @@ type GenOptions struct {
 	Cancel    bool // draw a cancellation of the caller's context during the copy (C03: a nil return must still mean a complete image)
 	Img       imggen.Options
 	NoDelays  bool
+	Align     bool // draw Case.Align (requests released in pairs) in a quarter of the cases
 }
 
 // DefaultGen returns the full generator options.
@@ -226,6 +233,12 @@ func Gen(t *rapid.T, o GenOptions) Case {
 	c.TgtMirror = rapid.IntRange(0, 4).Draw(t, "tgt_mirror") == 0
 	c.Cache = rapid.IntRange(0, 2).Draw(t, "cache") == 0
 	c.Warm = rapid.SampledFrom([]string{"", "", "", "inspect", "prior-copy", "other-repo-probe"}).Draw(t, "warm")
+	if o.Align && rapid.IntRange(0, 3).Draw(t, "align") == 0 {
+		c.Align = true
+		if c.Procs == 1 {
+			c.Procs = 4
+		}
+	}
 	if o.Cancel && rapid.IntRange(0, 5).Draw(t, "cancel") == 0 {
 		c.CancelAt = rapid.IntRange(1, 40).Draw(t, "cancel_at")
 		c.CancelMid = rapid.Bool().Draw(t, "cancel_mid")
@@ -241,6 +254,9 @@ func (c Case) ClientClasses() []string {
 	}
 	if c.Warm != "" {
 		out = append(out, "client:warm-"+c.Warm)
+	}
+	if c.Align {
+		out = append(out, "schedule:requests-released-in-pairs")
 	}
 	if c.Cache && c.Warm != "" {
 		out = append(out, "client:cache+warm")
@@ -605,6 +621,39 @@ func (e *Env) Copy(ctx context.Context) (err error, timedOut bool) {
 					ccancel()
 				}
 			}
+		}
+		defer func() { e.M.OnArrive = prev }()
+	}
+	if e.C.Align {
+		var bmu sync.Mutex
+		var waiting chan struct{}
+		prev := e.M.OnArrive
+		e.M.OnArrive = func(x *rm.Entry) {
+			if prev != nil {
+				prev(x)
+			}
+			bmu.Lock()
+			if waiting != nil {
+				ch := waiting
+				waiting = nil
+				bmu.Unlock()
+				close(ch)
+				return
+			}
+			ch := make(chan struct{})
+			waiting = ch
+			bmu.Unlock()
+			tm := time.NewTimer(500 * time.Microsecond)
+			select {
+			case <-ch:
+			case <-tm.C:
+				bmu.Lock()
+				if waiting == ch {
+					waiting = nil
+				}
+				bmu.Unlock()
+			}
+			tm.Stop()
 		}
 		defer func() { e.M.OnArrive = prev }()
 	}
